@@ -330,6 +330,22 @@ def _sqlite(check: Check):
            {txt(v) for v in pff.expand(ex)} == {txt(v) for v in pff.expand(ser_arg)})
   check.ob('R-SIB.sqlite', pp, 'num_examples(examples, validate=True)', okn,
            'the stored size is the validated row count of the same examples that are serialised')
+  # what add_many inserted is committed before add_many returns: a reader opened right afterwards (or a builder used without
+  # `with`) sees every client that was added
+  for mname in ('add_many', 'add'):
+    am = bld.methods.get(mname)
+    if am is None:
+      continue
+    aff = FuncFlow.of(repo, am)
+    ins_nodes = [n for n, c in aff.calls() if isinstance(c.func, ast.Attribute) and c.func.attr in ('execute', 'executemany') and c.args and any(
+        isinstance(x, ast.Constant) and isinstance(x.value, str) and 'INSERT' in x.value.upper() for x in ast.walk(c.args[0]))]
+    com_nodes = [n for n, c in aff.calls() if isinstance(c.func, ast.Attribute) and c.func.attr == 'commit']
+    pd = aff.cfg.postdominators()
+    for n in ins_nodes:
+      ok = any(cn.id in pd.get(n.id, set()) for cn in com_nodes)
+      check.ob('R-PAIR.commit', am, f'{mname}: INSERT ... ; commit()', ok,
+               'every insertion is committed on all normal paths before the method returns (rows left in an open transaction are '
+               'invisible to readers and lost if the builder is not closed through `with`)', node=n.ast)
   # readers select the columns they unpack
   sq = repo.cls(SQL, 'SQLiteFederatedData')
   for meth, want in (('client_sizes', 'client_id, num_examples'), ('_read_clients', 'client_id, data'),
